@@ -304,6 +304,10 @@ func (r *Runner) stop(ctx context.Context) bool {
 	if r.exit.returning || r.exit.exiting {
 		return true
 	}
+	// A pending break or continue skips everything up to the end of the enclosing loop's body.
+	if r.breakEnclosing > 0 || r.contnEnclosing > 0 {
+		return true
+	}
 	if err := ctx.Err(); err != nil {
 		r.exit.fatal(err)
 		return true
@@ -600,6 +604,17 @@ func (r *Runner) cmd(ctx context.Context, cm syntax.Command) {
 			r.noErrExit = true
 			r.stmts(ctx, cm.Cond)
 			r.noErrExit = oldNoErrExit
+			// A break or continue in the condition acts on this loop as well.
+			if r.contnEnclosing > 0 {
+				if r.contnEnclosing--; r.contnEnclosing > 0 {
+					break
+				}
+				continue
+			}
+			if r.breakEnclosing > 0 {
+				r.breakEnclosing--
+				break
+			}
 
 			stop := r.exit.ok() == cm.Until
 			if stop {
@@ -938,10 +953,14 @@ func (r *Runner) trapCallback(ctx context.Context, callback, name string) {
 		return
 	}
 	oldExit, oldLastExit := r.exit, r.lastExit
+	oldBreak, oldContn := r.breakEnclosing, r.contnEnclosing
 	r.lastExit = r.exit
-	// The action is a command list of its own: it runs even though the shell may be exiting.
+	// The action is a command list of its own: it runs even though the shell may be exiting
+	// or leaving a loop.
 	r.exit = exitStatus{}
+	r.breakEnclosing, r.contnEnclosing = 0, 0
 	r.stmts(ctx, file.Stmts)
+	r.breakEnclosing, r.contnEnclosing = oldBreak, oldContn
 	if r.exit.exiting {
 		// The action itself called exit (or was cancelled): that ends the shell, with that status.
 		r.lastExit = oldLastExit
@@ -1237,6 +1256,9 @@ func (r *Runner) call(ctx context.Context, pos syntax.Pos, args []string) {
 		r.Params = args[1:]
 		oldInFunc := r.inFunc
 		r.inFunc = true
+		// break and continue do not reach the loops of the caller.
+		oldInLoop := r.inLoop
+		r.inLoop = false
 		// The ERR trap is not inherited by functions; there is no errtrace option.
 		oldErr := r.callbackErr
 		r.callbackErr = ""
@@ -1252,6 +1274,7 @@ func (r *Runner) call(ctx context.Context, pos syntax.Pos, args []string) {
 
 		r.Params = oldParams
 		r.inFunc = oldInFunc
+		r.inLoop = oldInLoop
 		if r.callbackErr == "" {
 			r.callbackErr = oldErr // unless the function set one of its own
 		}
